@@ -1,7 +1,10 @@
 """C04 bounded monitor, part 2: (a) trees that contain non-root subtrees without any leaf but with two or more nodes
 (`[()]`, `[[], None]`, `{'k': ((),)}` ...) next to real leaves: paths / accessors must still address exactly the leaves;
 (b) equality and hash of path entries and accessors are consistent (a == b implies hash(a) == hash(b), set/dict lookups work)
-over a pool of entries of every entry class with coinciding (entry, type, kind).  Exhaustive over the listed pools."""
+over a pool of entries of every entry class with coinciding (entry, type, kind); (c) wide positional nodes (300 / 1200
+children - indices beyond the small-integer cache), each run in a child interpreter so that a crash is a finding; (d) several
+namedtuple / struct-sequence classes that share module and name but not their fields, in every order of first use.
+Exhaustive over the listed pools."""
 from ocv.bounded._extra import run_core
 
 CORE = r'''
@@ -43,7 +46,79 @@ def sr(x):
     except Exception as e:
         return f'<{type(x).__name__} entry={getattr(x, "entry", None)!r} (repr raised {type(e).__name__})>'
 
+WIDE_SRC = """
+import sys, collections, optree
+kind, n, nil = sys.argv[1], int(sys.argv[2]), sys.argv[3] == '1'
+xs = [object() for _ in range(n)]
+NT = collections.namedtuple('NT', [f'f{i}' for i in range(n)]) if kind == 'namedtuple' else None
+tree = {'list': lambda: list(xs), 'tuple': lambda: tuple(xs), 'deque': lambda: collections.deque(xs), 'namedtuple': lambda: NT(*xs),
+        'nested': lambda: [tuple(xs), list(xs)]}[kind]()
+paths, leaves, ts = optree.tree_flatten_with_path(tree, none_is_leaf=nil)
+accs = optree.tree_accessors(tree, none_is_leaf=nil)
+bad = []
+if not (len(paths) == len(leaves) == len(accs) == ts.num_leaves): bad.append('lengths differ')
+for k, (p, a, leaf) in enumerate(zip(paths, accs, leaves)):
+    if a(tree) is not leaf: bad.append(f'accessor {k} does not return leaf {k}')
+    if tuple(a.path) != tuple(p): bad.append(f'path {k} is {p!r}, accessor path {a.path!r}')
+    want = (k,) if kind != 'nested' else (k // n, k % n)
+    if tuple(p) != want or not all(type(e) is int for e in p): bad.append(f'path {k} is {p!r}, expected {want!r}')
+    if len(bad) > 3: break
+if optree.tree_paths(tree, none_is_leaf=nil) != paths: bad.append('tree_paths differs from tree_flatten_with_path')
+if ts.paths() != paths: bad.append('treespec.paths() differs from tree_flatten_with_path')
+got = []
+optree.tree_map_with_path(lambda p, x: got.append(p), tree, none_is_leaf=nil)
+if got != paths: bad.append('tree_map_with_path passes other paths')
+print('; '.join(bad)); sys.exit(1 if bad else 0)
+"""
+
+def wide(kind, n, nil):
+    import subprocess, sys, os
+    r = subprocess.run([sys.executable, '-c', WIDE_SRC, kind, str(n), '1' if nil else '0'], capture_output=True, text=True,
+                       env=dict(os.environ, PYTHONPATH=os.pathsep.join(sys.path)), cwd='/', timeout=300)
+    if r.returncode == 0:
+        return []
+    what = r.stdout.strip()[:300] if r.returncode == 1 else f'child interpreter died with status {r.returncode}: {r.stderr.strip()[-200:]}'
+    return [('C04.path_entry_is_the_child_index_for_wide_nodes', f'{kind} with {n} children (none_is_leaf={nil}): {what}')]
+
+def same_name_classes(order, how):
+    """several namedtuple classes called Row in one module, with different fields; `how` resolves the fields first"""
+    bad = []
+    classes = {'ab': collections.namedtuple('Row', ['a', 'b']), 'xyz': collections.namedtuple('Row', ['x', 'y', 'z']),
+               'ba': collections.namedtuple('Row', ['b', 'a'])}
+    for nm in order:
+        cls = classes[nm]
+        inst = cls(*[object() for _ in cls._fields])
+        tree = {'k': [inst]}
+        accs, leaves, ts = optree.tree_flatten_with_accessor(tree)
+        for i, (a, leaf) in enumerate(zip(accs, leaves)):
+            e = a[-1]
+            try:
+                if how == 'field': got = e.field
+                elif how == 'repr': repr(a); got = e.field
+                else: a.codify('t'); got = e.field
+            except Exception as ex:
+                bad.append(('C04.namedtuple_entry_has_the_right_field_name', f'class Row{cls._fields!r} used after {order!r}: entry {i} raised {type(ex).__name__}: {ex}'))
+                continue
+            if got != cls._fields[i] or e.fields != cls._fields:
+                bad.append(('C04.namedtuple_entry_has_the_right_field_name', f'class Row{cls._fields!r} used after {order!r}: entry {i} reports field {got!r} of {e.fields!r}, the class has {cls._fields!r}'))
+            try:
+                val = eval(a.codify('t'), {'t': tree})
+                ok = val is leaf
+            except Exception as ex:
+                ok, val = False, f'{type(ex).__name__}: {ex}'
+            if not ok:
+                bad.append(('C04.codify_evaluates_to_the_leaf', f'class Row{cls._fields!r} used after {order!r}: {a.codify("t")} evaluates to {val!r}, not to leaf {i}'))
+    return bad
+
 def cases(tier):
+    for kind in ('list', 'tuple', 'deque', 'namedtuple', 'nested'):
+        for n in (300, 1200):
+            if kind == 'namedtuple' and n > 300: continue
+            for nil in (False, True):
+                yield ('wide', kind, n, nil)
+    for order in itertools.permutations(('ab', 'xyz', 'ba')):
+        for how in ('field', 'repr', 'codify'):
+            yield ('samename', order, how)
     for ij in trees():
         for nil in (False, True):
             yield ('tree', ij, nil)
@@ -52,6 +127,10 @@ def cases(tier):
 
 def check(spec):
     bad = []
+    if spec[0] == 'wide':
+        return wide(*spec[1:])
+    if spec[0] == 'samename':
+        return same_name_classes(spec[1], spec[2])
     if spec[0] == 'tree':
         _, (i, j), nil = spec
         tree, want = build(i, j)
